@@ -46,6 +46,8 @@ RetEq(g, ea, eb) ==
      \* C19's stated exception: a no-effect call may have discarded expired entries, which shows
      \* in size() and in calls that count or address expired entries
      \/ (g.mode = "C19" /\ g.kind \in TtlKinds /\ ea.op \in {"era", "erar", "clean"})
+     \* C18 on tlru / utlru: the two runs may have discarded expired entries at different moments
+     \/ (g.mode = "C18" /\ g.kind \in {"tlru", "utlru"} /\ ea.op \in {"era", "erar", "clean"})
 
 SameEv(g, ea, eb) == RetEq(g, ea, eb) /\ ObsEq(ea, eb) /\ SizeEq(g, ea, eb)
 
